@@ -10,6 +10,8 @@ Self-test of tools/rs2lean.py (not part of any check; run by hand after editing 
   4. the same three kinds of test for tools/rs2lean_typed.py: sample_vec.rs (Vec / bool / `&mut self` calls inside expressions /
      recursion on fuel / `break` / short-circuit conditions) elaborated and evaluated; rename invariance on rlib/{mint,rand,dsu,sieve};
      out-of-subset sources rejected with file:line;
+  6. rlib/bitset/src/bitset.rs and bits_iter.rs (`:ident` macros expanded by substitution, `for` over iter()/iter_mut()/zip/enumerate, `|= &= ^=`,
+     `!` on integers, count_ones / trailing_zeros, `Option`, lifetimes, `while a && b` with a panicking `b`) elaborated and evaluated;
   5. sample_arr.rs (a struct with a type parameter and a const generic, arrays `[usize; D]`, slices, `contains`, `iter().product()`,
      `assert_eq!`, a `.rev()` loop, `Self::Output`, vector equality) elaborated and evaluated; rename invariance on rlib/tensor.
 """
@@ -282,10 +284,60 @@ def arr_selftest(T):
     return bad
 
 
+BITSET_FNS = ["new", "from_u64", "set", "remove", "flip", "test", "clear", "count", "BitAnd::bitand", "BitOr::bitor", "BitXor::bitxor",
+              "BitAndAssign::bitand_assign", "BitOrAssign::bitor_assign", "BitXorAssign::bitxor_assign", "Not::not"]
+BITSET_EVALS = [  # rlib/bitset/src/bitset.rs: `:ident` macros, `for` over iter()/iter_mut()/zip/enumerate, `|= &= ^=`, `!`, shifts, count_ones
+    ("(set 0 2 #[0, 0] 65).toOption", "some #[0, 2]"),
+    ("(match set 0 2 #[0, 0] 128 with | .error .index => 1 | _ => 0)", "1"),
+    ("(remove 0 1 #[7] 1).toOption", "some #[5]"),
+    ("(flip 0 1 #[7] 3).toOption", "some #[15]"),
+    ("(test 0 2 #[0, 2] 65).toOption", "some true"),
+    ("(clear 0 2 #[7, 9]).toOption", "some #[0, 0]"),
+    ("(count 0 2 #[7, 18446744073709551615]).toOption", "some 67"),
+    ("(from_u64 0 2 5).toOption", "some #[5, 0]"),
+    ("(bitand 9 2 #[6, 1] #[3, 1]).toOption", "some #[2, 1]"),
+    ("(bitor 9 2 #[6, 1] #[3, 0]).toOption", "some #[7, 1]"),
+    ("(bitxor 9 2 #[6, 1] #[3, 1]).toOption", "some #[5, 0]"),
+    ("(bitand_assign 9 2 #[6, 1] #[3, 1]).toOption", "some #[2, 1]"),
+    ("(bitor_assign 9 2 #[6, 1] #[3, 0]).toOption", "some #[7, 1]"),
+    ("(bitxor_assign 9 2 #[6, 1] #[3, 1]).toOption", "some #[5, 0]"),
+    ("(Rlib.TrTestBits.not 9 1 #[1]).toOption", "some #[18446744073709551614]"),
+    ("(match bitand 2 2 #[6, 1] #[3, 1] with | .error .fuel => 1 | _ => 0)", "1"),
+]
+BITSITER_EVALS = [  # rlib/bitset/src/bits_iter.rs: lifetimes dropped, `Option`, `while a && b` with a panicking `b`, trailing_zeros
+    ("(next 9 2 #[0, 5] 0).toOption", "some (#[0, 5], 65, some 64)"),
+    ("(next 9 2 #[0, 5] 65).toOption", "some (#[0, 5], 67, some 66)"),
+    ("(next 9 2 #[0, 5] 67).toOption", "some (#[0, 5], 128, none)"),
+    ("(next 9 1 #[0] 0).toOption", "some (#[0], 64, none)"),
+    ("(new 0 1 #[3]).toOption", "some (#[3], 0)"),
+]
+
+
+def bitset_selftest(T):
+    bad = 0
+    for src, struct, fns, ns, evals in (("bitset.rs", "Bitset", BITSET_FNS, "Rlib.TrTestBits", BITSET_EVALS),
+                                        ("bits_iter.rs", "BitsIter", ["new", "next"], "Rlib.TrTestBitsIter", BITSITER_EVALS)):
+        with tempfile.TemporaryDirectory() as d:
+            out = os.path.join(d, "S.lean")
+            info, problems = T.run("/repo/rlib/bitset/src/" + src, out, ns, src, "selftest", struct, fns)
+            text = open(out).read() + f"open {ns}\n" + "".join(f"#eval {e}\n" for e, _ in evals)
+            open(out, "w").write(text)
+            r = subprocess.run(["lake", "env", "lean", out], cwd=os.path.join(os.path.dirname(HERE), "lean"), capture_output=True, text=True)
+        got = [l for l in r.stdout.split("\n") if l.strip()]
+        want = [w for _, w in evals]
+        if problems or r.returncode != 0 or got != want:
+            bad += 1
+            print(f"FAIL typed {src}:", problems, r.returncode, [(g, w) for g, w in zip(got, want) if g != w], r.stdout[-600:], r.stderr[-300:])
+        else:
+            print(f"ok   typed: rlib/bitset {src}: {len(info['functions'])} functions, {len(info['loops'])} loops, {len(evals)} evaluations as expected")
+    return bad
+
+
 def typed_selftest():
     import rs2lean_typed as T
     bad = vec_selftest(T)
     bad += arr_selftest(T)
+    bad += bitset_selftest(T)
     mint = open("/repo/rlib/mint/src/lib.rs").read()
     d0 = T.Translator(mint, "lib.rs").translate("Modular", MINT_FNS)
     m2 = mint
